@@ -605,6 +605,30 @@ class Progress:
                     if s == 'nonneg':
                         return max(ra, GE)
             return UNK
+        if k == 'bin' and t[1] == 'Sub':
+            # len(S) - len(rest) with rest = S[X..].strip_prefix(P) (or the tail left by another prefix operation): that is X + len(P)
+            a, r_ = strip_ref(t[2]), strip_ref(t[3])
+
+            def lenof(x):
+                if x[0] == 'call' and strip_generics(x[1]).split('::')[-1] == 'len' and x[2]:
+                    return strip_ref(x[2][0])
+                if x[0] == 'len':
+                    return strip_ref(x[1])
+                return None
+            S, rest = lenof(a), lenof(r_)
+            if S is not None and rest is not None and rest[0] == 'field' and rest[1][0] == 'downcast' and rest[1][3] == 'Some':
+                c = strip_ref(rest[1][1])
+                if c[0] == 'call' and strip_generics(c[1]).split('::')[-1] == 'strip_prefix' and len(c[2]) == 2:
+                    hay, pat = strip_ref(c[2][0]), c[2][1]
+                    if hay[0] == 'call' and strip_generics(hay[1]).split('::')[-1] == 'index' and len(hay[2]) == 2 and strip_ref(hay[2][0]) == S \
+                            and hay[2][1][0] == 'variant' and hay[2][1][3] == 'RangeFrom':
+                        x = hay[2][1][4][0]
+                        rx = self.rel(x, base, body, depth + 1)
+                        if rx != UNK:
+                            ps_ = strip_ref(pat)
+                            plen = ('call', 'core::str::<impl str>::len', (ps_,))
+                            sg = self.sign(plen, body) if not (is_const(ps_) and isinstance(ps_[1], int)) else 'pos'
+                            return GT if sg == 'pos' else max(rx, GE)
         if k == 'call' and strip_generics(t[1]).split('::')[-1] == 'len' and self.LA:
             # the text is known to extend beyond Y + |s| for every matched lookahead
             best = UNK
